@@ -49,8 +49,6 @@ GROUP = {'+': 'arith', '-': 'arith', '*': 'arith', '/': 'arith', '^': 'power', '
          'neg': 'unary-minus', 'pct': 'percent'}
 GROUP.update({op: 'compare' for op in ref.COMPARE})
 EMPTY = '#EMPTY!'      # what a compiled formula passes as the left operand of a prefix minus
-ROUTES = ('fixup', 'ctx-cells', 'ctx-lit', 'wb-cells', 'wb-lit')
-
 
 
 def ops_for(a, b):
@@ -199,12 +197,20 @@ def operand_class(v):
         up = v.strip().upper()
         if up in ('TRUE', 'FALSE'):
             return 'text-TRUE-FALSE'
-        if up.lstrip('+-') in ('INF', 'INFINITY', 'NAN'):
-            return 'text-inf-nan'
+        if up.lstrip('+-') in ('INF', 'INFINITY', 'NAN') or (st == 'maybe' and _overflowing_spelling(v)):
+            return 'text-inf-nan'       # spellings float() reads as a non-finite number
         return 'text' if st == 'not' else 'locale-numeric-text'
     if k == 'number':
         return 'number'
     return k
+
+
+def _overflowing_spelling(text):
+    """a plain numeric spelling beyond the double range ("1E999")"""
+    try:
+        return not math.isfinite(float(text)) and any(c.isdigit() for c in text)
+    except ValueError:
+        return False
 
 
 def classify(op, a, b, got, exp):
@@ -378,15 +384,6 @@ def wb_cells_all_ops(ctx, a, b, ops):
 
 
 # --------------------------------------------------------------------------- the order laws
-
-def cmp_table(values, how):
-    """pycel's answers: {(i, j): {op: result}} for all ordered pairs"""
-    table = {}
-    for i, a in enumerate(values):
-        for j, b in enumerate(values):
-            table[i, j] = {op: how(op, a, b) for op in ref.COMPARE}
-    return table
-
 
 def law_violation(ctx, law, values, detail):
     ctx.violation(f'order/{law}', f'{law}: {detail}', {'kind': 'law', 'law': law, 'values': list(values)})
